@@ -103,6 +103,107 @@ def run_mock(pid, tier, t0, plans, assumptions, rule, level_note=None):
     return 1 if viol else 0
 
 
+LIFE_BASE = {"MaxInst": 2, "Thread": "<-T2", "Creator": 0, "MaxSteps": 4, "MaxVals": 4, "GuardPos": '"early"', "Ops": "<-AllOps", "EmitOn": True}
+LIFE_INV = ["NoDoublePanic", "ClonesNeverVerify", "VerifyPanicsIff", "ReportAgrees", "VerifiedAtMostOnce", "OrigGoneAfterVerify",
+            "ChainsDisjoint", "LiveValsNotGone", "StoredWhileShared"]
+
+
+def life_inst(**kw):
+    c = dict(LIFE_BASE)
+    c.update(kw)
+    return {"module": "MC_Life", "constants": c, "invariants": LIFE_INV + ["Emit"]}
+
+
+LIFE_PLANS = {
+    "C09": {"quick": [("c09q", life_inst(Ops="<-C09Ops", MaxSteps=4), None)],
+            "thorough": [("c09t", life_inst(Ops="<-C09Ops", MaxSteps=5), None),
+                         ("c09t3", life_inst(Ops="<-C09Ops", MaxSteps=8, MaxInst=3), {"num": 300000, "depth": 9})]},
+    "C11": {"quick": [("c11q", life_inst(Ops="<-C11Ops", MaxSteps=4), None)],
+            "thorough": [("c11t", life_inst(Ops="<-C11Ops", MaxSteps=5), None),
+                         ("c11t3", life_inst(Ops="<-C11Ops", MaxSteps=8, MaxInst=3), {"num": 300000, "depth": 9})]},
+    "C13": {"quick": [("c13q", life_inst(Ops="<-C13Ops", MaxSteps=5, MaxVals=6), None)],
+            "thorough": [("c13t", life_inst(Ops="<-C13Ops", MaxSteps=6, MaxVals=8), None),
+                         ("c13t3", life_inst(Ops="<-C13Ops", MaxSteps=10, MaxInst=3, MaxVals=12), {"num": 300000, "depth": 11})]},
+}
+
+
+def life_sensitivity():
+    """The model must notice a misplaced unwinding guard (otherwise NoDoublePanic is vacuous)."""
+    out = {}
+    for pos in ("afterClone", "afterThread"):
+        inst = life_inst(GuardPos='"%s"' % pos, EmitOn=False, MaxSteps=4)
+        r = vf.run_tlc(inst, "life_sens_" + pos, workers=4, timeout=600)
+        out[pos] = r["violated"]
+        if r["violated"] != "NoDoublePanic":
+            raise ToolError("sensitivity run GuardPos=%s did not violate NoDoublePanic (%s): the invariant is vacuous" % (pos, r["violated"]))
+    return out
+
+
+def run_life(pid, tier, t0, rule, assumptions, extra_runs=None):
+    import subprocess
+    cov = {"states": 0, "transitions": 0, "traces_validated_against_impl": 0, "samples": [], "instances": [],
+           "evaluations": 0, "distinct_nontrivial": 0, "rule": rule, "exhaustive": True}
+    all_divs = []
+    for (name, inst, sim) in LIFE_PLANS[pid][tier]:
+        r, outp, d = vf.run_tlc_to_file(inst, name, workers=8, timeout=3000 if tier == "thorough" else 900, simulate=sim)
+        res_path = os.path.join(d, "result.json")
+        prog = os.path.join(d, "progress")
+        skip = 0
+        merged = {"behaviours": 0, "steps": 0, "divergences": 0, "ops": {}, "outcomes": {}, "aborts": 0}
+        samples = []
+        while True:
+            if os.path.exists(res_path):
+                os.remove(res_path)
+            p = subprocess.run([vf.VH, "life", outp, res_path, "--skip", str(skip), "--progress", prog,
+                                "--max-inst", str(inst["constants"]["MaxInst"]), "--max-vals", str(inst["constants"]["MaxVals"])],
+                               cwd=vf.VERIF, stderr=subprocess.DEVNULL)
+            if p.returncode in (0, 1) and os.path.exists(res_path):
+                res = json.load(open(res_path))
+                for k in ("behaviours", "steps", "divergences"):
+                    merged[k] += res["stats"][k]
+                for k in ("ops", "outcomes"):
+                    for kk, vv in res["stats"][k].items():
+                        merged[k][kk] = merged[k].get(kk, 0) + vv
+                all_divs += res["divergences"]
+                samples += res["samples"]
+                break
+            if p.returncode == 2:
+                raise ToolError("lifecycle harness failed on %s" % name)
+            # the harness process died: a panic while unwinding aborted it (C11) -- find the behaviour
+            idx = int(open(prog).read().strip() or "0")
+            beh = vf.nth_replay_line(outp, idx)
+            merged["aborts"] += 1
+            merged["divergences"] += 1
+            merged["behaviours"] += idx - skip
+            all_divs.append({"what": "process aborted (signal %s): a second panic while unwinding" % (-p.returncode if p.returncode < 0 else p.returncode),
+                             "step": 0, "expected": "every drop during unwinding is silent", "observed": "abort", "beh": beh, "in_scope": True, "abort": True})
+            skip = idx
+            if merged["aborts"] >= 8:
+                break
+        if sim is None:
+            cov["states"] += r["distinct"]; cov["transitions"] += r["generated"]
+        else:
+            cov["exhaustive"] = False
+            cov["states"] += r["generated"]; cov["transitions"] += r["generated"]
+        cov["traces_validated_against_impl"] += merged["behaviours"]
+        cov["evaluations"] += merged["behaviours"]
+        cov["distinct_nontrivial"] += merged["behaviours"]
+        cov["instances"].append({"name": name, "mode": "simulate" if sim else "exhaustive", "tlc_distinct_states": r["distinct"],
+                                 "tlc_states_generated": r["generated"], "tlc_wall_s": r["wall_s"], "replay": merged,
+                                 "constants": {k: v for k, v in inst["constants"].items()}})
+        if len(cov["samples"]) < 2:
+            cov["samples"] += samples[:2]
+        if merged["behaviours"] == 0:
+            raise ToolError("instance %s emitted no behaviours" % name)
+        os.remove(outp)
+    if extra_runs:
+        cov.update(extra_runs())
+    viol, known = report(pid, all_divs, len(all_divs))
+    cov["checker_cmd"] = "tlc MC_Life.tla (instances above) > behaviours; harness vh life"
+    vf.write_evidence(pid, tier, LEVEL_MC, cov, assumptions, time.time() - t0, viol)
+    return 1 if viol else 0
+
+
 COMMON_ASSUME = [
     "argument domain is a small finite set; matchers are total and side-effect free",
     "expectations are produced by TLC from tla/Mock.tla; the harness only compares observables (return ids, panic classes, verification lines, drop counters)",
@@ -119,10 +220,27 @@ RULES = {
 }
 
 
+LIFE_ASSUME = [
+    "the mock under test is fixed (one exactly-once pattern, one provided method, a partial mock); counts enter only through 'some expectation unmet'",
+    "two OS threads (creator and one other); all operations on an instance run on the thread the model says it lives on",
+    "a double panic is observed as death of the harness process; the aborted behaviour is identified through a progress file",
+]
+LIFE_RULES = {
+    "C09": "all sequences of lifecycle operations up to MaxSteps over original + clones + helper clones + instances lent via make_ref, on two threads: clone, delegate, lend, move, hit, err, drop, verify(), report(), no_verify_in_drop(); every complete sequence is executed on the real library and each operation's outcome compared",
+    "C11": "all sequences up to MaxSteps that include panics of six origins (user code, mock-induced error, real function, default body, matcher, return-value Clone) on either thread while an instance (original or clone; plain, Box, Rc, Arc) is dropped by the unwinding or not; live clones, foreign threads, unmet expectations included; an abort of the harness process is the violation",
+    "C13": "all sequences up to MaxSteps of make_ref epochs (1-2 values of three types each, all earlier references re-read after every push), make_mut, lending of clones, delegation, drop/verify; destroyed values compared with drop counters after every operation",
+}
+
+
 def run_property(pid, tier, t0):
     import mockplans
     if pid in mockplans.PLANS:
         return run_mock(pid, tier, t0, mockplans.PLANS, COMMON_ASSUME, RULES.get(pid, ""))
+    if pid in LIFE_PLANS:
+        extra = None
+        if pid == "C11":
+            extra = lambda: {"sensitivity": life_sensitivity()}
+        return run_life(pid, tier, t0, LIFE_RULES[pid], LIFE_ASSUME, extra)
     raise ToolError("no engine for property %s" % pid)
 
 
